@@ -34,6 +34,22 @@ func frame(typ int, body []byte) []byte {
 type Cap struct {
 	Kind    byte
 	A, S, V uint32
+	Tuples  [][3]uint32 // kind 'q': one ADD-PATH capability carrying several (afi, safi, send/receive) tuples
+}
+
+// FlatCaps expands multi-tuple add-path capabilities into single tuples (order kept).
+func FlatCaps(cs []Cap) []Cap {
+	var out []Cap
+	for _, c := range cs {
+		if c.Kind == 'q' {
+			for _, t := range c.Tuples {
+				out = append(out, Cap{Kind: 'p', A: t[0], S: t[1], V: t[2]})
+			}
+			continue
+		}
+		out = append(out, c)
+	}
+	return out
 }
 
 func (c Cap) String() string {
@@ -48,6 +64,12 @@ func (c Cap) String() string {
 		return fmt.Sprintf("r%d", c.V)
 	case 'x':
 		return fmt.Sprintf("x%d.%d.%d", c.A, c.S, c.V)
+	case 'q':
+		var ts []string
+		for _, t := range c.Tuples {
+			ts = append(ts, fmt.Sprintf("%d.%d.%d", t[0], t[1], t[2]))
+		}
+		return "q" + strings.Join(ts, "_")
 	default:
 		return fmt.Sprintf("u%d", c.V)
 	}
@@ -74,6 +96,17 @@ func parseCaps(s string) ([]Cap, error) {
 			return nil, fmt.Errorf("empty capability")
 		}
 		c := Cap{Kind: t[0]}
+		if c.Kind == 'q' {
+			for _, tu := range strings.Split(t[1:], "_") {
+				var a, s2, v uint32
+				if n, err := fmt.Sscanf(tu, "%d.%d.%d", &a, &s2, &v); n != 3 || err != nil {
+					return nil, fmt.Errorf("bad capability %q", t)
+				}
+				c.Tuples = append(c.Tuples, [3]uint32{a, s2, v})
+			}
+			out = append(out, c)
+			continue
+		}
 		parts := strings.Split(t[1:], ".")
 		nums := make([]uint32, len(parts))
 		for i, p := range parts {
@@ -117,6 +150,12 @@ func capBytes(c Cap) []byte {
 		return []byte{1, 4, byte(c.A >> 8), byte(c.A), 0, byte(c.S)}
 	case 'p':
 		return []byte{69, 4, byte(c.A >> 8), byte(c.A), byte(c.S), byte(c.V)}
+	case 'q':
+		b := []byte{69, byte(4 * len(c.Tuples))}
+		for _, t := range c.Tuples {
+			b = append(b, byte(t[0]>>8), byte(t[0]), byte(t[1]), byte(t[2]))
+		}
+		return b
 	case 'r':
 		return []byte{9, 1, byte(c.V)}
 	case 'x':
